@@ -48,16 +48,12 @@ ASSUMPTIONS = [
     "values handed to a parameter are opaque to the wrapper (it only binds, validates names and forwards)",
     "a call never repeats a keyword through ** unpacking of a non-dict mapping (CPython rejects repeated keywords before the call)",
     "virtual (nested-attribute) keyword defaults are documentation of the nested attribute's default and are not injected (DESIGN.md section 10 item 9)",
-    "attribute names of the class family are not `implementation`, `validate_attrs`, `kwargs` or `self` as KEY attribute (open finding KF-C17-key-name-capture covers exactly those)",
+    "well-formed classes: the KEY attribute is not called `self` or `kwargs` (either makes building the constructor fail loudly with ValueError) and no attribute is private; attributes called `implementation` / `validate_attrs` are ordinary since /repo 0ac9e19 (corpus cases key_named_*.json)",
 ]
 TRUSTED_EXTRA = [
     "pyBind (Model/C17.lean) as the semantics of Python argument binding: tested on every run against inspect.Signature.bind and against real def-functions",
 ]
-OPEN_STATEMENTS = [
-    "KeyNameCaptureFree: the constructor of a class whose key attribute is called implementation/validate_attrs forwards the key "
-    "(false on the unchanged code: the parameter shadows the global of the generated text); accepts_iff_advertised and "
-    "forwards_bound carry the hypothesis noCapture, key_capture_witness is the decided counterexample",
-]
+OPEN_STATEMENTS = []
 
 _sc = None  # lazily imported spec_classes bits
 _CACHE = {}
@@ -580,6 +576,21 @@ def model_lines(case):
 # ---------------------------------------------------------------------------
 
 
+IMPL_KEYS = ("_spec_classes_implementation", "implementation")          # (HEAD name first; the older name is
+VALIDATE_NAMES = ("_spec_classes_validate_attrs", "validate_attrs")      #  kept so that old trees still run)
+
+
+def impl_key(fn):
+    for k in IMPL_KEYS:
+        if k in fn.__globals__:
+            return k
+    raise KeyError("implementation global of the generated method not found")
+
+
+def calls_validate(fn):
+    return any(n in fn.__code__.co_names for n in VALIDATE_NAMES)
+
+
 class Spy:
     def __init__(self, orig=None, call_through=False):
         self.orig, self.call_through = orig, call_through
@@ -622,7 +633,7 @@ def show_recorded(args, kwargs, labels, defaults):
 
 
 def head_line(fn):
-    val = 1 if "validate_attrs" in fn.__code__.co_names else 0
+    val = 1 if calls_validate(fn) else 0
     return f"build ok ;; adv {sig_token(inspect.signature(fn))} ;; cmp {sig_token(code_signature(fn))} ;; val {val}"
 
 
@@ -634,9 +645,10 @@ def snapshot(obj):
 def run_spied(fn, pos, kw):
     """Call fn with the implementation replaced by a spy. Returns (exception class name | None, spy)."""
     g = fn.__globals__
-    orig = g["implementation"]
+    key = impl_key(fn)
+    orig = g[key]
     spy = Spy(orig)
-    g["implementation"] = spy
+    g[key] = spy
     try:
         try:
             fn(*pos, **kw)
@@ -644,7 +656,7 @@ def run_spied(fn, pos, kw):
         except Exception as e:  # noqa: BLE001
             return type(e).__name__, spy
     finally:
-        g["implementation"] = orig
+        g[key] = orig
 
 
 def receiver_for(cls, desc, method):
@@ -668,7 +680,7 @@ def real_lines(case):
     if k == "method":
         cls, name, fn = real_method(case)
         out = ["impl", head_line(fn)]
-        impl = fn.__globals__["implementation"]
+        impl = fn.__globals__[impl_key(fn)]
         impl_sig = inspect.signature(impl)
         # `D.<name>` is printed only for the object the ADVERTISED signature shows as default
         defaults = {p.name: p.default for p in inspect.signature(fn).parameters.values()
@@ -1134,7 +1146,7 @@ def oracle_builder(case):
     # the theorem's hypotheses; outside them MethodBuilder makes no promise the property needs
     if any(p.kind is P.KEYWORD_ONLY and p.default is P.empty for p in m.method_args_virtual):
         return []
-    if any(p.name in ("implementation", "validate_attrs") for p in m.method_args):
+    if any(p.name in IMPL_KEYS + VALIDATE_NAMES for p in m.method_args):
         return []
     viol = []
     recv = Tok("recv")
@@ -1220,7 +1232,7 @@ def method_cases(desc, rng, tier, others=()):
             foreign = [u for u in others if u in un and u not in keep]
             rest = [u for u in un if u not in keep and u not in foreign]
             un = keep + rng.sample(foreign, min(4, len(foreign))) + rng.sample(rest, min(3, len(rest)))
-        impl = fn.__globals__["implementation"]
+        impl = fn.__globals__[impl_key(fn)]
         yield {
             "kind": "method", "cls": desc, "method": pattern, "mkind": kind, "key": key_tok,
             "nested": nested, "impl": sig_token(inspect.signature(impl)),
@@ -1370,16 +1382,8 @@ def tags(case, real):
     return t
 
 
-def _is_key_capture(case, violation):
-    if not isinstance(case, dict) or case.get("kind") != "method":
-        return False
-    return case.get("cls", {}).get("key") in ("implementation", "validate_attrs", "kwargs", "self") and case.get("mkind") == "init"
-
-
-KNOWN_MATCHERS = {"key_name_capture": _is_key_capture}
-
 MANIFEST_ENTRY = {
     "level_text": "Lean 4 proof, for every MethodBuilder state reachable by any with_arg sequence and every call, that the synthesised wrapper accepts a call iff Python binding against the advertised signature does, forwards to the implementation exactly the values bound to each advertised parameter (shown defaults for compiled parameters, nothing for unpassed nested keywords), rejects any keyword outside the signature with TypeError before the implementation is entered, that with_spec_attrs_for yields one virtual keyword per init-enabled attribute of the nested class minus own parameters and the overflow attribute, and that the build-time compatibility check implies the forwarded call binds to the implementation; the with_arg recipe of each of the 20 generated method kinds is part of the model and proved to satisfy the hypotheses. Tied to /repo on every run: for every generated method of a generated class family the advertised signature, the compiled code object's parameters and the implementation's signature are compared with the model, and every single advertised parameter, every pair, positional overflow and unadvertised names are called on the real method with a spy in place of the implementation and on the model; random with_arg sequences on the real MethodBuilder and random signatures against inspect.Signature.bind and real defs tie the builder and the binding fragment.",
-    "level_note": "Trusted: Lean kernel; axioms propext/Classical.choice/Quot.sound only; the hand-written model incl. pyBind as the semantics of Python argument binding (tested each run against inspect.Signature.bind and real functions); the harness. Hypotheses of the acceptance/forwarding theorems: virtual keyword-only arguments carry a default (true of everything with_spec_attrs_for adds), no parameter is called implementation/validate_attrs (open finding KF-C17-key-name-capture: such a KEY attribute breaks the constructor), no *args parameter for the implementation-compatibility theorem. Nested-keyword defaults are documentation, not injected (DESIGN section 10 item 9).",
+    "level_note": "Trusted: Lean kernel; axioms propext/Classical.choice/Quot.sound only; the hand-written model incl. pyBind as the semantics of Python argument binding (tested each run against inspect.Signature.bind and real functions); the harness. Hypotheses of the acceptance/forwarding theorems: virtual keyword-only arguments carry a default (true of everything with_spec_attrs_for adds), no parameter is called like the two PRIVATE globals of the generated text (_spec_classes_implementation/_spec_classes_validate_attrs; no managed attribute can be), the key attribute is not called self/kwargs (outside well-formedness: the constructor cannot be built, loud ValueError), no *args parameter for the implementation-compatibility theorem. Nested-keyword defaults are documentation, not injected (DESIGN section 10 item 9).",
     "technique": "Lean 4 proof over a model of MethodBuilder + Python argument binding; differential correspondence on every generated method with a spying implementation",
 }
